@@ -615,6 +615,57 @@ def kill_runs(ctx, drv, bl, workers=16):
     return per_case, nkill, len(jobs)
 
 
+def overtaken_writer_runs(ctx, drv, bl, prop="C15"):
+    """Two writer processes on one directory: the first is stopped on entry to each of its mutating system calls, a second process
+    adds / updates the same user completely, then the first goes on.  If the first one reports failure, the directory is
+    exactly what the second writer left (its record must not be damaged or removed by the loser's clean-up)."""
+    import time as _t
+    n = 0
+    for b in bl:
+        c0 = b["case"]
+        if c0.op != "add" or c0.had or getattr(c0, "tmp_xdev", False) or getattr(c0, "warm", False) or getattr(c0, "residue", False):
+            continue
+        reg = b["run"]["parsed"]["region"]
+        for k, idx in enumerate(mutating_indices(reg)):
+            call = reg[idx]
+            c = c0.clone()
+            c.materialise(os.path.join(drv.work, "overtaken-%s-%d" % (c.name, k)))
+            tr = os.path.join(c.root, "strace.txt")
+            w = subprocess.Popen(["strace", "-f", "-o", tr, "-e", "trace=" + call["name"], "-e",
+                                  "inject=%s:delay_enter=400000:when=%d" % (call["name"], call["ordinal"])] + c.argv(drv.drv),
+                                 stdout=subprocess.PIPE, stderr=subprocess.PIPE)
+            _t.sleep(0.12)
+            pf = os.path.join(c.root, "pw-second")
+            open(pf, "wb").write(PWS["third"])
+            second = subprocess.run([drv.drv, "-cfg", os.path.join(c.root, "store.yaml"), "-op", "add", "-user", c.user, "-pwfile", pf] +
+                                    (["-admin"] if c.admin else []), stdout=subprocess.PIPE, text=True)
+            try:
+                second_ok = json.loads(second.stdout.strip().splitlines()[-1])["ok"]
+            except Exception:
+                second_ok = None
+            snap_mid = drv.snapshot(c.root)
+            out, _ = w.communicate(timeout=30)
+            try:
+                first_ok = json.loads(out.decode().strip().splitlines()[-1])["ok"]
+            except Exception:
+                first_ok = None
+            snap_end = drv.snapshot(c.root)
+            n += 1
+            diff = sorted(x for x in set(snap_mid) | set(snap_end) if snap_mid.get(x) != snap_end.get(x) and x not in ("base/.tmp/", "strace.txt", "pw-second")
+                          and not x.startswith("base/.tmp/"))
+            if second_ok and first_ok is False and diff:
+                ctx.violation(prop, "overtaken-writer:failed-%s-changed-store:before-%s" % (c.op, call["name"]),
+                              "a second process added %s while the first was stopped before %s#%d; the first then reported failure, yet the directory "
+                              "changed after the second writer had finished: %s" % (c.user, call["name"], idx, diff))
+            if second_ok and first_ok:
+                # both acknowledged an add of the same user: exactly one of the two records may be there - a single whole file
+                v = view_of(c, drv.pi(c.base), None)
+                if v["F"] in ("torn", "empty") or v["G"] != "absent":
+                    ctx.violation(prop, "overtaken-writer:both-acknowledged:before-%s" % call["name"], "both writers reported success, files: %s" % v)
+            c.cleanup()
+    return n
+
+
 def reader_runs(ctx, drv, bl, workers=8):
     """Concurrent readers in other processes: the writer is stopped for 300 ms on entry to each of its mutating
     system calls (strace delay_enter) while fresh reader processes authenticate, check and project the directory."""
